@@ -105,3 +105,22 @@ Example C07_example :
   let '(r, _, _, tr) := run (prune ["w"%string] 2) w (mkOracle [1000; 1001]%Z [] [] [] [] None 0 1%Z Relatime) in
   r = Ok (2%N, 1%N) /\ option_map o_unl (mon_run o_step o_init tr) = Some [["w"; "b"]%string].
 Proof. vm_compute. split; reflexivity. Qed.
+
+(** What maintenance looks at (all responses): the whole behaviour of a prune - ranking,
+    evictions, re-stamps, result - depends, for each listed entry, on its name, on whether it is
+    a directory and on its two times; link count, inode number, size and permission bits are
+    never inspected.  A cached file with a second hard link is a candidate like any other.
+    (Proofs/ScanInputs.v) *)
+From Kismet Require Import Proofs.ScanInputs.
+Theorem C07_maintenance_looks_at_name_kind_and_times_only : forall dir cap, blind (prune dir cap).
+Proof. exact maintenance_looks_at_name_kind_and_times_only. Qed.
+
+Theorem C07_blind_meaning : forall A c (k : res -> prog A) ino dirb mode size mt at_ nl ino' mode' size' nl',
+  blind (Call c k) ->
+  k (RStat (mkStat ino dirb mode size mt at_ nl)) = k (RStat (mkStat ino' dirb mode' size' mt at_ nl')).
+Proof. intros A c k. exact (link_count_is_not_looked_at c k). Qed.
+
+(** ... and the predicate is not vacuous: a program that reads the link count is not blind. *)
+Example C07_blind_is_not_trivial :
+  ~ blind (Call (CStat [] false) (fun r => match r with RStat st => Ret (st_nlink st) | _ => Ret 0%nat end)).
+Proof. intros [He _]. specialize (He (RStat (mkStat 0 false 0 0 0 0 2))). discriminate He. Qed.
